@@ -5,7 +5,21 @@ MODULES = ["c06_dates", "c03_namespaces", "c05_converters", "c10_strictness"]
 # helpers executed by inlining their real source instead of through a contract (listed in evidence)
 INLINE = ["calendar:isleap"]
 
+NODES = "xsdata.formats.dataclass.parsers.nodes"
+
 PROPERTIES = {
+    "C10": {
+        "min_obligations": 150,
+        "canaries": [
+            {"name": "bind_attrs-drops-xsi-exemption", "function": NODES + ".element:ElementNode.bind_attrs#all-attributes-unknown",
+             "module": NODES + ".element", "target": "ElementNode.bind_attrs",
+             "old": "self.config.fail_on_unknown_attributes and target_uri(qname) != Namespace.XSI.uri",
+             "new": "self.config.fail_on_unknown_attributes"},
+            {"name": "skipnode-bind-returns-true", "function": NODES + ".skip:SkipNode.bind",
+             "module": NODES + ".skip", "target": "SkipNode.bind", "old": "return False", "new": "return True"},
+        ],
+        "decided": [], "not_decided": [], "bounded": [], "trusted_base": [], "assumptions": [],
+    },
     "C05": {
         "min_obligations": 50,
         "canaries": [],
